@@ -135,7 +135,7 @@ impl MT941 {
 
     /// Get the base currency (first two characters) from mandatory field 62F
     fn get_base_currency(&self) -> &str {
-        &self.field_62f.currency[0..2]
+        self.field_62f.currency.get(0..2).unwrap_or_default()
     }
 
     // ========================================================================
@@ -154,7 +154,7 @@ impl MT941 {
 
         // Check 60F if present
         if let Some(ref field_60f) = self.field_60f
-            && &field_60f.currency[0..2] != base_currency
+            && field_60f.currency.get(0..2).unwrap_or_default() != base_currency
         {
             errors.push(SwiftValidationError::content_error(
                     "C27",
@@ -162,7 +162,7 @@ impl MT941 {
                     &field_60f.currency,
                     &format!(
                         "Currency code in field 60F ({}) must have the same first two characters as field 62F ({})",
-                        &field_60f.currency[0..2],
+                        field_60f.currency.get(0..2).unwrap_or_default(),
                         base_currency
                     ),
                     "The first two characters of the three character currency code in fields 60F, 90D, 90C, 62F, 64 and 65 must be the same for all occurrences of these fields",
@@ -174,7 +174,7 @@ impl MT941 {
 
         // Check 90D if present
         if let Some(ref field_90d) = self.field_90d
-            && &field_90d.currency[0..2] != base_currency
+            && field_90d.currency.get(0..2).unwrap_or_default() != base_currency
         {
             errors.push(SwiftValidationError::content_error(
                     "C27",
@@ -182,7 +182,7 @@ impl MT941 {
                     &field_90d.currency,
                     &format!(
                         "Currency code in field 90D ({}) must have the same first two characters as field 62F ({})",
-                        &field_90d.currency[0..2],
+                        field_90d.currency.get(0..2).unwrap_or_default(),
                         base_currency
                     ),
                     "The first two characters of the three character currency code in fields 60F, 90D, 90C, 62F, 64 and 65 must be the same for all occurrences of these fields",
@@ -194,7 +194,7 @@ impl MT941 {
 
         // Check 90C if present
         if let Some(ref field_90c) = self.field_90c
-            && &field_90c.currency[0..2] != base_currency
+            && field_90c.currency.get(0..2).unwrap_or_default() != base_currency
         {
             errors.push(SwiftValidationError::content_error(
                     "C27",
@@ -202,7 +202,7 @@ impl MT941 {
                     &field_90c.currency,
                     &format!(
                         "Currency code in field 90C ({}) must have the same first two characters as field 62F ({})",
-                        &field_90c.currency[0..2],
+                        field_90c.currency.get(0..2).unwrap_or_default(),
                         base_currency
                     ),
                     "The first two characters of the three character currency code in fields 60F, 90D, 90C, 62F, 64 and 65 must be the same for all occurrences of these fields",
@@ -214,7 +214,7 @@ impl MT941 {
 
         // Check 64 if present
         if let Some(ref field_64) = self.field_64
-            && &field_64.currency[0..2] != base_currency
+            && field_64.currency.get(0..2).unwrap_or_default() != base_currency
         {
             errors.push(SwiftValidationError::content_error(
                     "C27",
@@ -222,7 +222,7 @@ impl MT941 {
                     &field_64.currency,
                     &format!(
                         "Currency code in field 64 ({}) must have the same first two characters as field 62F ({})",
-                        &field_64.currency[0..2],
+                        field_64.currency.get(0..2).unwrap_or_default(),
                         base_currency
                     ),
                     "The first two characters of the three character currency code in fields 60F, 90D, 90C, 62F, 64 and 65 must be the same for all occurrences of these fields",
@@ -235,7 +235,7 @@ impl MT941 {
         // Check 65 if present (can be repetitive)
         if let Some(ref field_65_vec) = self.field_65 {
             for (idx, field_65) in field_65_vec.iter().enumerate() {
-                if &field_65.currency[0..2] != base_currency {
+                if field_65.currency.get(0..2).unwrap_or_default() != base_currency {
                     errors.push(SwiftValidationError::content_error(
                         "C27",
                         "65",
@@ -243,7 +243,7 @@ impl MT941 {
                         &format!(
                             "Currency code in field 65[{}] ({}) must have the same first two characters as field 62F ({})",
                             idx,
-                            &field_65.currency[0..2],
+                            field_65.currency.get(0..2).unwrap_or_default(),
                             base_currency
                         ),
                         "The first two characters of the three character currency code in fields 60F, 90D, 90C, 62F, 64 and 65 must be the same for all occurrences of these fields",
